@@ -179,6 +179,11 @@ func renderMpcl(mc *mpCase) string {
 			t := types[s.X-1]
 			n := def(t)
 			fmt.Fprintf(&body, "\t%s := %s\n\tfor i := 0; i < %d; i++ {\n\t\t%s = %s %s %s(i)\n\t}\n", n, x, s.C, n, n, s.Op, t.s)
+		case "expr3":
+			// no parentheses: the parser's precedence and associativity decide; the second operator is ExprOpList[c]
+			x, y, z := name(s.X), name(s.Y), name(s.Z)
+			n := def(types[s.X-1])
+			fmt.Fprintf(&body, "\t%s := %s %s %s %s %s\n", n, x, s.Op, y, []string{"+", "-", "*", "&", "|", "^", "&^"}[s.C-1], z)
 		case "shadow":
 			x, y, c := name(s.X), name(s.Y), name(s.Z)
 			t := types[s.X-1]
